@@ -99,6 +99,9 @@ def de_class(kind, tok, has_le):
 
 def run(ctx):
     f = ctx.f
+    # the decimal writer's scale / sign-byte / fit rules are necessary for decimals to round-trip (shared with C02)
+    from .c02 import decscale_rule
+    decscale_rule(ctx)
     sm = ser_matrix(f)
     dm = de_matrix(f)
     ser_shapes = {k: set() for k in KINDS}
